@@ -291,6 +291,22 @@ func (g *gen) stmt(e env, budget int) []zn.Stmt {
 			coll = &zn.Var{Name: dn}
 			mutate = dn
 		}
+		// ... and so may the body of a loop over a list VARIABLE change that list (grow it at
+		// either end, shrink it, overwrite items): the loop visits the items the list held when
+		// it began, each one once, in order
+		mutateList := ""
+		if !isDict && n >= 1 && g.pick(3, "mutating-list") == 0 {
+			ln := g.name("M")
+			pre = []zn.Stmt{&zn.Let{Names: []string{ln}, E: coll}}
+			if g.pick(3, "spare-capacity") == 0 {
+				// (the same items reached by another route: one more item, taken off again)
+				l := coll.(*zn.ListLit)
+				pre = []zn.Stmt{&zn.Let{Names: []string{ln}, E: &zn.ListLit{Items: append(append([]zn.Expr{}, l.Items...), numE(77))}},
+					&zn.ExprStmt{E: &zn.MCall{Root: &zn.Var{Name: ln}, Chain: []zn.Call{{Name: "右移"}}}}}
+			}
+			coll = &zn.Var{Name: ln}
+			mutateList = ln
+		}
 		fe := &zn.ForEach{E: coll}
 		var shown []zn.Expr
 		for i := 0; i < nn; i++ {
@@ -315,6 +331,28 @@ func (g *gen) stmt(e env, budget int) []zn.Stmt {
 					&zn.ExprStmt{E: &zn.Call{Name: "显示", Args: append([]zn.Expr{&zn.Str{V: "changed"}}, shown...)}})
 				g.labels["loop-variable-changed-in-place"] = true
 			}
+		}
+		if mutateList != "" {
+			lv := &zn.Var{Name: mutateList}
+			for i, k := 0, 1+g.pick(3, "nlistmut"); i < k; i++ {
+				switch g.pick(6, "listmut") {
+				case 0:
+					body = append(body, &zn.ExprStmt{E: &zn.MCall{Root: lv, Chain: []zn.Call{{Name: "前增", Args: []zn.Expr{numE(float64(60 + g.pick(9, "pv")))}}}}})
+				case 1:
+					body = append(body, &zn.ExprStmt{E: &zn.MCall{Root: lv, Chain: []zn.Call{{Name: "后增", Args: []zn.Expr{numE(float64(70 + g.pick(9, "av")))}}}}})
+				case 2:
+					body = append(body, &zn.ExprStmt{E: &zn.MCall{Root: lv, Chain: []zn.Call{{Name: "左移"}}}})
+				case 3:
+					body = append(body, &zn.ExprStmt{E: &zn.MCall{Root: lv, Chain: []zn.Call{{Name: "右移"}}}})
+				default:
+					// overwrite an item that is there whatever happened before (guarded by the length)
+					idx := 1 + g.pick(n, "li")
+					body = append(body, &zn.If{Conds: []zn.Expr{&zn.Bin{Op: ">=", L: &zn.Member{Root: lv, Name: "长度"}, R: numE(float64(idx))}},
+						Blocks: [][]zn.Stmt{{&zn.ExprStmt{E: &zn.Assign{Target: &zn.Index{Root: lv, Idx: numE(float64(idx))}, E: numE(float64(80 + g.pick(9, "ov")))}}}}})
+				}
+			}
+			body = append(body, &zn.ExprStmt{E: &zn.Call{Name: "显示", Args: []zn.Expr{&zn.Str{V: "list-now"}, lv}}})
+			g.labels["each-list-changed-by-its-body"] = true
 		}
 		if mutate != "" {
 			if g.pick(2, "mutkind") == 0 {
